@@ -494,7 +494,7 @@ func pipeGen(r *Rand, tier string) []string {
 		batch := Pick(r, []int{1, 1, 2, 3, 7, 1000})
 		workers := Pick(r, []int{1, 1, 2, 3, 4, 8})
 		readers := Pick(r, []int{1, 1, 2, 3, 4})
-		buffer := Pick(r, []int{1, 1, 2, 3, 4})
+		buffer := Pick(r, []int{1, 1, 2, 3, 4, 0})
 		flush := 0
 		script := "."
 		if mode == "reader" {
